@@ -177,7 +177,8 @@ class RecPeripherals:
         self._rec('out', text)
 
     def terminal_input(self, same_line):
-        v = self._next(self.inputs, 'ii', '0', 'input')
+        k = self.ii - len(self.inputs)
+        v = self._next(self.inputs, 'ii', ','.join(['0'] * (1 + max(0, k) % 5)), 'input')
         self._rec('in', _j(same_line), v)
         if len(self.exhausted) > 200:
             raise ScriptExhausted()
@@ -288,13 +289,22 @@ def install_hooks():
     TD._exec_print = _exec_print
     TD._exec_input = _exec_input
 
+    C = qcpu.QvmCpu
+    for nm in ('_exec_errres', '_exec_errresn'):
+        orig = getattr(C, nm)
+
+        def wrapped(self, _orig=orig):
+            self._qv_resumed = getattr(self, '_qv_resumed', 0) + 1
+            return _orig(self)
+        setattr(C, nm, wrapped)
+
 
 # --------------------------------------------------------------------------
 # run
 
 class RunResult:
     __slots__ = ('history', 'outcome', 'ticks', 'cpu', 'machine', 'exhausted', 'crash_tb',
-                 'trap_line', 'stdout')
+                 'trap_line', 'stdout', 'resumed')
 
     def brief(self):
         return {'outcome': self.outcome, 'ticks': self.ticks, 'events': len(self.history)}
@@ -388,6 +398,7 @@ def run_module(module, script=None, max_ticks=200000, cpu_class=None, on_tick=No
     r.ticks = ticks
     r.exhausted = impl.exhausted
     r.stdout = out.getvalue()
+    r.resumed = getattr(cpu, '_qv_resumed', 0)
     if keep:
         r.cpu = cpu
         r.machine = m
